@@ -1,15 +1,30 @@
 import RgVerif.Driver.SearcherCommon
+import RgVerif.Spec.MultiLine
 namespace RgVerif.Driver.C03
 open RgVerif RgVerif.Driver.SearcherCommon
 
+/-- `c03.mlspec cfg matcher inp` → the grep model for the multi-line strategy (`mlSpec`: context windows, separators,
+numbering and byte count of the grep model over the lines covered by the matches; every block one callback). -/
+def handleMlSpec (args : List Sx) : String :=
+  match args with
+  | [cfg, m, inp] =>
+    match parseCfg cfg, parseMatcher m, inp.bytes? with
+    | some cfg, some mk, some inp =>
+      let r0 := showEvents (MLSpec.mlSpec cfg (mk inp false) inp)
+      let r1 := showEvents (MLSpec.mlSpec cfg (mk inp true) inp)
+      if r0 == r1 then r0 ++ "|ok" else "table-miss"
+    | _, _, _ => "bad-op"
+  | _ => "bad-op"
+
 /-- Request handler of property C03: `cmd` is the first token of the line, `args` the rest.
-`c03.model cfg matcher inp sink` (M), `c03.spec cfg selbits inp` (S), `c03.lines lt inp`, `c03.path cfg matcher`. -/
+`c03.model cfg matcher inp sink` (M), `c03.spec cfg selbits inp` (S), `c03.lines lt inp`, `c03.path cfg matcher`, `c03.mlspec cfg matcher inp`. -/
 def handle (cmd : String) (args : List Sx) : String :=
   match cmd with
   | "c03.model" => handleModel args
   | "c03.spec" => handleSpec args
   | "c03.lines" => handleLines args
   | "c03.path" => handlePath args
+  | "c03.mlspec" => handleMlSpec args
   | _ => "bad-op"
 
 end RgVerif.Driver.C03
